@@ -84,6 +84,47 @@ def fg_to_dae(pid):
     return c
 
 
+def vars_to_models(pid):
+    """System.vars_to_models: every algebraic (state) variable that reads from the DAE gets dae.y (dae.x) at its own addresses,
+    stored in place; x and y never mixed."""
+    sch = {'self.dae.x': TArr(), 'self.dae.y': TArr()}
+    for code in ('x', 'y'):
+        E = 'self.getters_%s.$e' % code
+        sch['self.getters_%s' % code] = TColl()
+        sch[E + '.n'] = TInt()
+        sch[E + '.a'] = TArr(kind='int')
+        sch[E + '.v'] = TArr()
+
+    def mk(code):
+        E = 'self.getters_%s.$e' % code
+
+        def snap(v):
+            v.st.ghost['in_iter'] = True
+            v.st.ghost['vloc'] = v.get(E + '.v').loc
+            return z3.And(v.arr(E + '.a').n == v.z(E + '.n'), v.arr(E + '.v').n == v.z(E + '.n'), v.z(E + '.n') >= 0)
+
+        def done(v):
+            if not v.st.ghost.get('in_iter'):
+                return True
+            a, val, src = v.arr(E + '.a'), v.arr(E + '.v'), v.arr('self.dae.' + code)
+            k = fresh('k', I)
+            same_array = v.get(E + '.v').loc == v.st.ghost.get('vloc')        # stored in place: the array object is shared with the model
+            return z3.And(z3.BoolVal(bool(same_array)),
+                          z3.ForAll([k], z3.Implies(z3.And(k >= 0, k < a.n), val.vals[k] == src.vals[z3.ToInt(a.vals[k])])))
+        return Loop(inv=[('v[k]=dae.%s[a[k]]-for-the-variable-just-processed,stored-in-place' % code, done)],
+                    assume=[('one-address-and-one-value-per-device', snap)], frame=['$var', 'loc:' + E + '.v', E + '.*', 'ghost:in_iter', 'ghost:vloc'])
+    c = Contract(FS, 'System.vars_to_models', pid=pid, params={'self': TObj()}, schema=sch,
+                 loops={0: mk('y'), 1: mk('x')}, ensures=[], modifies=['self.getters_x.*', 'self.getters_y.*'])
+    c.check_bounds = False
+    c.merge = False
+
+    def pre_state(st):
+        st.heap['self._getters'] = st.new_ref(DictC({'x': st.load('self.getters_x'), 'y': st.load('self.getters_y')}), 'getters')
+        st.ghost.pop('in_iter', None)
+    c.pre_state = pre_state
+    return c
+
+
 def add_obligations(pack, tier, pid='C01'):
     pack.trust('np.add.at(a, idx, v) adds v[k] to a[idx[k]] for every k (duplicates accumulate); np.put(a, idx, v) stores')
-    run_contracts(pack, [(e_to_dae(pid),), (fg_to_dae(pid),)])
+    run_contracts(pack, [(e_to_dae(pid),), (fg_to_dae(pid),), (vars_to_models(pid),)])
